@@ -135,7 +135,7 @@ class MpReachNLRI(Attribute):
                     if nlri:
                         nlri_list.append(nlri)
                 if nexthop_bin:
-                    nexthop = str(netaddr.IPAddress(int(binascii.b2a_hex(nexthop_bin), 16)))
+                    nexthop = cls.parse_nexthop_address(nexthop_bin)
                 else:
                     nexthop = ''
                 return dict(afi_safi=(afi, safi), nexthop=nexthop, nlri=nlri_list)
@@ -192,7 +192,7 @@ class MpReachNLRI(Attribute):
         # for l2vpn
         elif afi == afn.AFNUM_L2VPN:
             if safi == safn.SAFNUM_EVPN:
-                nexthop = str(netaddr.IPAddress(int(binascii.b2a_hex(nexthop_bin), 16)))
+                nexthop = cls.parse_nexthop_address(nexthop_bin)
                 nlri = EVPN.parse(nlri_bin)
                 return dict(afi_safi=(afi, safi), nexthop=nexthop, nlri=nlri)
             else:
